@@ -230,8 +230,104 @@ def r06_e(prog: Program, chk: Check) -> None:
                f"{c['n']} calls, {c['bad']} failing" + (f"; smallest: {wit[0]}" if wit else ""), witness=wit)  # type: ignore[index]
 
 
+# ------------------------------------------------------------------- R06.f
+def _generic_chunk(args):
+    part, nparts, max_n = args[:3]
+    only_typevars = len(args) > 3 and args[3]
+    import itertools as _it
+
+    from ..model import AnchorError as _AE
+    from ..model import Program as _P
+    from . import call_model as cmod
+
+    model = cmod.GenericCallModel(_P())
+    objs = (1, True, "a", 1.5)
+    classes: Dict[str, Dict[str, object]] = {}
+    unsupported = []
+    n = 0
+
+    def note(key: str, bad: bool, d) -> None:
+        c = classes.setdefault(key, {"n": 0, "bad": 0, "witness": []})
+        c["n"] += 1  # type: ignore[operator]
+        if bad:
+            c["bad"] += 1  # type: ignore[operator]
+            w = c["witness"]
+            w.append(d)  # type: ignore[union-attr]
+            w.sort(key=lambda x: (len(x["signature"]) + len(x["call"]), repr(x)))  # type: ignore[union-attr]
+            del w[4:]  # type: ignore[arg-type]
+
+    idx = 0
+    for k in range(1, max_n + 1):
+        for anns in _it.product(cmod.GENERIC_ANNOTATIONS, repeat=k):
+            if not any(a in ("T", "C", "B") for a in anns) or (only_typevars and not all(a in ("T", "C", "B") for a in anns)):
+                continue
+            for returns_tv in (True, False):
+                idx += 1
+                if idx % nparts != part:
+                    continue
+                sig = "def f(" + ", ".join(f"p{i}: {a}" for i, a in enumerate(anns)) + ") -> " + (next(a for a in anns if a in ("T", "C", "B")) if returns_tv else "None")
+                for pos in _it.product(objs, repeat=k):
+                    n += 1
+                    d = {"signature": sig + "   [T free, C in (int, str), B bound to int]", "call": "f(" + ", ".join(repr(x) for x in pos) + ")"}
+                    try:
+                        r = model.run_generic(anns, returns_tv, pos)
+                    except _AE as e:
+                        unsupported.append({**d, "why": str(e)[:300]})
+                        continue
+                    ref = cmod.generic_reference(anns, pos)
+                    if isinstance(r[0], str):
+                        note("no-crash", True, {**d, "error": r[1]})
+                        continue
+                    note("no-crash", False, d)
+                    is_err, errs = r
+                    rk = "returning the type variable" if returns_tv else "returning None"
+                    note(f"diagnosed iff an argument is outside its declared type or no type fits a type variable::{ref}::{rk}", is_err != (ref != "ok"), {**d, "diagnosed": is_err, "messages": errs, "reference": ref})
+                    note("the error flag and the shown messages agree", is_err != bool(errs), {**d, "is_error": is_err, "messages": errs})
+    return n, classes, unsupported
+
+
+def r06_f(prog: Program, chk: Check) -> None:
+    import multiprocessing as mp
+    import os as _os
+
+    chk.rule(
+        "R06.f",
+        "call checking of generic functions as one interpreted stack: on top of R06.e, TypeVarValue.can_assign / make_bounds_map / get_inherent_bounds / substitute_typevars, "
+        "unify_bounds_maps, resolve_bounds_map and solve (with remove_redundant_solutions) are interpreted, over real runtime objects: functions of up to 2 (thorough: 3) parameters "
+        "annotated with a free type variable, one constrained to (int, str), one bound to int, or a plain class, returning the type variable or None, called with every tuple of "
+        "four literals: the call is diagnosed exactly when an argument is outside its declared type or no type fits all arguments of a type variable",
+        floor=6,
+    )
+    selftest = bool(_os.environ.get("VERIF_SELFTEST"))
+    procs = 2 if selftest else min(16, _os.cpu_count() or 1)
+    max_n = 3 if chk.tier == "thorough" and not selftest else 2
+    with mp.get_context("fork").Pool(procs) as pl:
+        results = pl.map(_generic_chunk, [(i, procs * 2, max_n) for i in range(procs * 2)])
+    total = 0
+    merged: Dict[str, Dict[str, object]] = {}
+    unsupported = []
+    for n, classes, uns in results:
+        total += n
+        unsupported += uns
+        for k, c in classes.items():
+            m = merged.setdefault(k, {"n": 0, "bad": 0, "witness": []})
+            m["n"] += c["n"]  # type: ignore[operator]
+            m["bad"] += c["bad"]  # type: ignore[operator]
+            m["witness"] = sorted(list(m["witness"]) + list(c["witness"]), key=lambda x: (len(x["signature"]) + len(x["call"]), repr(x)))[:4]  # type: ignore[arg-type]
+    chk.model_evaluations += total
+    chk.analysed["generic_call_model"] = {"calls": total, "not_modelled": len(unsupported)}
+    site = prog.site("signature", prog.func("signature", "Signature.check_call_with_bound_args"))
+    for k, c in sorted(merged.items()):
+        wit = c["witness"]
+        chk.ob("R06.f", f"signature::generic-call-model::{k}", int(c["bad"]) == 0, site,  # type: ignore[arg-type]
+               f"{c['n']} calls, {c['bad']} failing" + (f"; smallest: {wit[0]}" if wit else ""), witness=wit)  # type: ignore[index]
+    if unsupported:
+        raise AnchorError(f"{len(unsupported)} generic calls cannot be modelled; first: {unsupported[0]}")
+
+
 def run(prog: Program, chk: Check) -> None:
     guard(chk, r06_cd, prog, chk)
     guard(chk, r06_a, prog, chk)
     guard(chk, r06_b, prog, chk)
     guard(chk, r06_e, prog, chk)
+    guard(chk, r06_f, prog, chk)
